@@ -8,6 +8,7 @@ CONSTANTS
   QCodes = {}
   KSet = {}
   RSet = {}
+  BoxCodes = {}
   Emit = FALSE
 POSTCONDITION Accepted
 CHECK_DEADLOCK FALSE
